@@ -109,6 +109,10 @@ def initial_cases(tier, seed):
         for e in (2, 3):
             cases.append({"tree": ["pow", ["leaf", a], e]})
         cases.append({"tree": ["transform", ["leaf", a]]})
+        if a in BASIC[:6]:
+            # the three optional arguments of the wrapper in every presence pattern (each pattern is its own code path)
+            for v in ("std", "avg", "none"):
+                cases.append({"tree": ["transform-" + v, ["leaf", a]]})
         cases.append({"tree": ["ad", ["leaf", a]]})
         cases.append({"tree": ["spinsym", ["leaf", a]]})
         cases.append({"tree": ["+c", ["leaf", a], 0.6]})
@@ -161,6 +165,11 @@ def build(t):
     if t[0] == "transform":
         M = np.array([[1.0, 0.2, 0.0, 0.1], [0.0, 0.9, 0.3, 0.0], [0.2, 0.0, 1.1, 0.0], [0.0, 0.1, 0.0, 0.8]])
         return K.DiffTransform(build(t[1]), M, std=np.array([1.0, 2.0, 0.5, 1.5]), avg=np.array([0.1, 0.0, 0.3, 0.2]))
+    if t[0].startswith("transform-"):
+        M = np.array([[1.0, 0.2, 0.0, 0.1], [0.0, 0.9, 0.3, 0.0], [0.2, 0.0, 1.1, 0.0], [0.0, 0.1, 0.0, 0.8]])
+        v = t[0].split("-")[1]
+        return K.DiffTransform(build(t[1]), M, std=np.array([1.0, 2.0, 0.5, 1.5]) if v == "std" else None,
+                               avg=np.array([0.1, 0.0, 0.3, 0.2]) if v == "avg" else None)
     if t[0] == "ad":
         return K.ADKernel(build(t[1]), [3, 1, 0, 2])
     if t[0] == "spinsym":
@@ -189,16 +198,23 @@ def run_case(case):
         with contextlib.redirect_stdout(io.StringIO()):  # QARBF prints its scales
             return k(*a, **kw)
 
+    X0, Y0 = X.copy(), Y.copy()
     try:
         k = build(t)
         KXX = call(k, X)
         KXY = call(k, X, Y)
         KYX = call(build(t), Y, X)
+        KXXa = call(k, X, X)  # the same array object on both sides
     except Exception as e:
         return {"fail": [{"key": "cannot-evaluate;%s;%s" % (ck, type(e).__name__), "msg": "kernel %s cannot be evaluated: %s: %s" % (name, type(e).__name__, str(e)[:200])}],
                 "evals": 1, "outcome": "raised"}
-    evals = 3
+    evals = 4
     sc = 1 + np.abs(KXX).max()
+    if not (np.array_equal(X, X0) and np.array_equal(Y, Y0)):
+        fails.append({"key": "input-modified;" + ck, "msg": "evaluating the kernel changed the caller's sample arrays (max change %.3e)" % max(np.abs(X - X0).max(), np.abs(Y - Y0).max())})
+        X[:], Y[:] = X0, Y0
+    if np.all(np.isfinite(KXXa)) and np.abs(KXXa - KXX).max() > 1e-12 * sc and not _has(t, ["White", "DensityNoise", "ExpDensityNoise", "FittedDensityNoise"]):
+        fails.append({"key": "kXX-aliased;" + ck, "msg": "k(X, X) with the same array on both sides differs from k(X): %.3e" % np.abs(KXXa - KXX).max()})
     if not np.all(np.isfinite(KXX)) or not np.all(np.isfinite(KXY)):
         fails.append({"key": "nonfinite;" + ck, "msg": "kernel matrix not finite"})
         return {"fail": fails, "evals": evals, "outcome": "nonfinite"}
